@@ -55,6 +55,10 @@ type Gen struct {
 	R    *rand.Rand
 	P    Profile
 	NAll int // number of alliance denoms in play (ids 0..NAll-1)
+	// Open: the block time has been advanced (BeginBlock) but the end blocker has not run yet: what follows happens INSIDE the
+	// block, as transactions and the slashing of BeginBlock do on a chain, and sees entries that have matured but are unpaid,
+	// intervals that have elapsed but are uncharged
+	Open bool
 }
 
 func (g *Gen) pick(ws map[string]int) string {
@@ -393,6 +397,14 @@ func (g *Gen) Next() string {
 		}
 		return line
 	case "block":
+		if g.Open {
+			g.Open = false
+			return "closeblock"
+		}
+		if g.R.Intn(2) == 0 {
+			g.Open = true
+			return fmt.Sprintf("advance %d", g.blockDt())
+		}
 		return fmt.Sprintf("block %d", g.blockDt())
 	case "reimport":
 		return "reimport"
